@@ -287,19 +287,23 @@ static void String_Resize(var self, size_t n) {
 #endif
   
   size_t m = String_Len(self);
-  s->val = realloc(s->val, n+1);
+  
+  /* The String changes only once the new block is there */
+  char* val = n is SIZE_MAX ? NULL : realloc(s->val, n+1);
+  
+#if CELLO_MEMORY_CHECK == 1
+  if (val is NULL) {
+    throw(OutOfMemoryError, "Cannot allocate String, out of memory!");
+  }
+#endif
+  
+  s->val = val;
   
   if (n > m) {
     memset(&s->val[m], 0, n - m);
   } else {
     s->val[n] = '\0';
   }
-  
-#if CELLO_MEMORY_CHECK == 1
-  if (s->val is NULL) {
-    throw(OutOfMemoryError, "Cannot allocate String, out of memory!");
-  }
-#endif
   
 }
 
